@@ -213,6 +213,9 @@ class SimPool:
     def imap(self, func, iterable, chunksize=1):
         return iter(self._submit(func, iterable, False, chunksize).get())
 
+    def starmap_async_ordered(self, func, iterable, chunksize=None):
+        return self._submit(func, iterable, True, chunksize)
+
     def imap_unordered(self, func, iterable, chunksize=1):
         if self.state != 'RUN':
             raise ValueError('Pool not running')
@@ -259,6 +262,26 @@ class _Apply:
         return self.func(*args, **self.kwds)
 
 
+class _PoolNS:
+    """multiprocessing.pool namespace: ThreadPool shares the parent's globals (threads, not processes)"""
+
+    def __init__(self, simmp):
+        self._simmp = simmp
+
+    def ThreadPool(self, processes=None, initializer=None, initargs=()):
+        p = SimPool(self._simmp.sim, processes, None, ())
+        p.fork_globals = {m: m.__dict__ for m in self._simmp.sim.modules}      # no isolation between threads
+        p.overlay = [{m: {} for m in self._simmp.sim.modules} for _ in range(p.n)]
+        p._in_worker = lambda w, thunk: thunk()
+        if initializer is not None:
+            for _ in range(p.n):
+                initializer(*initargs)
+        return p
+
+    def Pool(self, *a, **k):
+        return self._simmp.Pool(*a, **k)
+
+
 class _Util:
     @staticmethod
     def get_temp_dir():
@@ -271,6 +294,7 @@ class SimMP:
     def __init__(self, sim):
         self.sim = sim
         self.util = _Util()
+        self.pool = _PoolNS(self)
 
     def Pool(self, processes=None, initializer=None, initargs=(), maxtasksperchild=None):
         return SimPool(self.sim, processes, initializer, initargs, maxtasksperchild)
